@@ -943,11 +943,15 @@ func (c *Client) readResponseData(typ string) error {
 		}
 		return c.handleStatus()
 	case "FETCH":
-		if !c.dec.ExpectSP() {
+		// message sequence numbers are nz-number, see RFC 9051 section 9
+		if !c.dec.Expect(num != 0, "non-zero message sequence number") || !c.dec.ExpectSP() {
 			return c.dec.Err()
 		}
 		return c.handleFetch(num)
 	case "EXPUNGE":
+		if !c.dec.Expect(num != 0, "non-zero message sequence number") {
+			return c.dec.Err()
+		}
 		return c.handleExpunge(num)
 	case "SEARCH":
 		return c.handleSearch()
